@@ -125,8 +125,8 @@ def canon_val(v) -> str:
     if isinstance(v, FilledGrid):
         vac = sorted((int(a), int(b)) for a, b in v.vacancies)
         pos = [(frac(x), frac(y)) for x, y in v.positions]
-        return f"(filled {T.canon_grid(v)} {sx([list(p) for p in vac])} {sx([list(p) for p in pos])})"
-    return f"(grid {T.canon_grid(v)})"
+        return f"(filled {T.canon_geom(v)} {sx([list(p) for p in vac])} {sx([list(p) for p in pos])})"
+    return f"(grid {T.canon_geom(v)})"
 
 
 def sites(g):
@@ -148,6 +148,19 @@ def oracle_step(op, before, after):
     got = [(frac(x), frac(y)) for x, y in after.positions]
     if got != occupied(after):
         return "positions != underlying sites minus vacancies"
+    # the underlying grid is a grid: nothing in its ancestry is filled, and looking at it through a full view shows every site
+    u = after.parent
+    anc = u
+    while anc is not None:
+        if isinstance(anc, FilledGrid):
+            return "the underlying grid of a filled grid is (a view of) a filled grid"
+        anc = getattr(anc, "parent", None)
+    from kirin.dialects import ilist as _il
+    nx_, ny_ = u.shape
+    if nx_ and ny_:
+        w = u.get_view(_il.IList(list(range(nx_))), _il.IList(list(range(ny_))))
+        if isinstance(w, FilledGrid) or len(list(w.positions)) != nx_ * ny_:
+            return "a full view of the underlying grid of a filled grid does not show all its sites"
     if not isinstance(before, FilledGrid):
         if k == "vacate":
             want_vac = set(tuple(p) for p in op[2])
@@ -256,7 +269,8 @@ def rand_chain(rng):
         elif r < 0.97:
             a = rng.randrange(0, nx)
             b = rng.randrange(0, ny)
-            ix = ("i", a) if rng.random() < 0.4 else ("sl", a, rng.randrange(a + 1, nx + 1), None)
+            ix = ("i", a) if rng.random() < 0.4 else (("sl", a, rng.randrange(a + 1, nx + 1), None) if rng.random() < 0.6 else
+                                                     ("sl", rng.choice([None, 0, a]), None, rng.choice([1, 2, 2, 3])))
             iy = ("i", b) if rng.random() < 0.4 else ("sl", rng.choice([None, b]), None, rng.choice([None, 1, 2]))
             e = ("item", e, ix, iy)
             nx = 1 if ix[0] == "i" else len(range(nx)[slice(ix[1], ix[2], ix[3])])
@@ -287,6 +301,12 @@ def exhaustive_chains(thorough):
                 for xi in xsel:
                     for yi in ysel:
                         out.append(("sub", f, xi, yi))
+                # slicing, stepped slices included (a vacancy may sit on a skipped row / column)
+                sls = [("sl", None, None, None), ("sl", None, None, 2), ("sl", 1, None, 2), ("sl", 0, 1, None), ("i", 0)]
+                for ixs in sls:
+                    for iys in sls:
+                        if len(range(nx)[slice(*ixs[1:])] if ixs[0] == "sl" else [0]) and len(range(ny)[slice(*iys[1:])] if iys[0] == "sl" else [0]):
+                            out.append(("item", f, ixs, iys))
                 for xt, yt in ((1, 2), (2, 1), (2, 2)):
                     out.append(("rep", f, xt, yt, Fraction(5, 2), Fraction(7)))
                 out.append(("shift", f, Fraction(3, 2), Fraction(-2)))
@@ -322,12 +342,11 @@ def run(ctx):
         reqs.append("(C12 (eval " + sx(e) + "))")
         try:
             v = py_eval(e)
-            vals.append(v)
-            impls.append("ok " + canon_val(v))
         except Exception as ex:  # noqa: BLE001
-            vals.append(None)
-            impls.append("err")
+            v = None
             ctx.count("impl_err_" + type(ex).__name__)
+        vals.append(v)
+        impls.append("err" if v is None else "ok " + canon_val(v))
         inside = any(s[0] in ("vacate", "fill") and s[2] for s in steps(e))
         ctx.seen(sx(e), inside and len(steps(e)) >= 2)
         for s in steps(e):
@@ -385,7 +404,7 @@ def eq_hash(ctx, chains, vals):
     # bucket by (underlying grid, vacancy set): members must be == and hash-equal; different buckets !=
     buckets = {}
     for e, v in fs:
-        key = (T.canon_grid(underlying(v)), frozenset(v.vacancies))
+        key = (T.canon_geom(underlying(v)), frozenset(v.vacancies))
         buckets.setdefault(key, []).append((e, v))
     n_pairs = 0
     for key, members in buckets.items():
@@ -442,4 +461,4 @@ def kernel_level(ctx, chains, vals, impls, n):
             ctx.fail({"chain": chains[i], "kernel_source": src(chains[i])},
                      f"@move kernel computes a different value than the Python methods: kernel={got[:300]} methods={impls[i][:300]}")
         elif vals[i] is not None and r != vals[i]:
-            ctx.fail({"chain": chains[i]}, "kernel result and method result are not ==")
+            ctx.fail({"chain": chains[i]}, f"kernel result and method result are not ==: {r!r} vs {vals[i]!r}")
